@@ -59,24 +59,32 @@ def regenerate_gen():
     return msgs
 
 
-def build_coq():
-    """full .vo build of the development; returns (ok, log)"""
+def build_coq(prop=None):
+    """full .vo build in two stages: (1) the model, the checkers and their extraction (theories/, extract/) and the
+    OCaml driver -- needed to run anything; (2) the proofs the property's theorems depend on (make props/Cxx.vo; all
+    of the development when no property is given).  Returns (model_ok, proofs_ok, log, translator messages)."""
     with Lock("coq"):
         msgs = regenerate_gen()
         rc, out = sh("coq_makefile -f _CoqProject -o Makefile", cwd=COQ, timeout=120)
         if rc != 0:
-            return False, out, msgs
-        rc, out = sh("make -j16", cwd=COQ, timeout=2400)
+            return False, False, out, msgs
+        rc, out = sh("make -j16 extract/Extract.vo", cwd=COQ, timeout=2400)
         log = out
-        ok = rc == 0
-        if ok:
+        model_ok = rc == 0
+        if model_ok:
             rc2, out2 = sh(os.path.join(ROOT, "ocaml", "build.sh"), timeout=300)
             if rc2 != 0:
-                ok = False
+                model_ok = False
                 log += "\n[ocaml build failed]\n" + out2
+        proofs_ok = False
+        if model_ok:
+            target = "props/%s.vo" % prop if prop and os.path.exists(os.path.join(COQ, "props", prop + ".v")) else ""
+            rc, out = sh("make -j16 %s" % target, cwd=COQ, timeout=2400)
+            log += "\n" + out
+            proofs_ok = rc == 0
         os.makedirs(os.path.join(BUILD, "logs"), exist_ok=True)
-        open(os.path.join(BUILD, "logs", "coq_build.log"), "w").write(log)
-        return ok, log, msgs
+        open(os.path.join(BUILD, "logs", "coq_build%s.log" % ("_" + prop if prop else "")), "w").write(log)
+        return model_ok, proofs_ok, log, msgs
 
 
 def strip_comments(txt):
@@ -660,19 +668,24 @@ def run_check(prop, tier, seed):
     known = load_known()
     problems = []     # proof-side problems (obligations that do not check)
     # ---- 1. proofs
-    ok, log, gen_msgs = build_coq()
+    ok, proofs_ok, log, gen_msgs = build_coq(prop)
     problems += gen_msgs
     if not ok:
         tail = "\n".join(log.strip().splitlines()[-25:])
-        problems.append("the Coq development does not build:\n" + tail)
+        problems.append("the model (coq/theories, extraction, driver) does not build:\n" + tail)
+    elif not proofs_ok:
+        tail = "\n".join(log.strip().splitlines()[-25:])
+        problems.append("the proofs that %s depends on do not check any more:\n%s" % (prop, tail))
     forb = grep_forbidden()
     if forb:
         problems.append("forbidden words in the development: " + "; ".join(forb[:10]))
     theorems, discharged, pp, raw = ([], [], [], "")
-    if ok:
+    if ok and proofs_ok:
         theorems, discharged, pp, raw = prop_obligations(prop)
         problems += pp
-    if tier == "thorough" and ok:
+    elif os.path.exists(os.path.join(COQ, "props", prop + ".v")):
+        theorems = re.findall(r"^\s*Theorem\s+([A-Za-z0-9_']+)", open(os.path.join(COQ, "props", prop + ".v")).read(), re.M)
+    if tier == "thorough" and ok and proofs_ok:
         rc, out = sh("coqchk -silent -o -Q theories OCI -Q gen OCI.gen -Q proofs OCI.proofs -Q props OCI.props OCI.props.%s" % prop, cwd=COQ, timeout=3000)
         open(os.path.join(BUILD, "logs", "coqchk_%s.log" % prop), "w").write(out)
         if rc != 0:
@@ -840,9 +853,9 @@ def do_replay(prop, path):
         return 0
     txt = "\n".join(case_lines) + "\n"
     cases = parse_case_text(txt)
-    ok, log, msgs = build_coq()
+    ok, _proofs_ok, log, msgs = build_coq(prop)
     if not ok:
-        print("the Coq development does not build")
+        print("the model does not build")
         return 1
     c = cases[0]
     profile = "release" if c["env"]["mode"] == "wrapping" else "debug"
